@@ -41,7 +41,7 @@ def run(tier):
             jobs.append({"family": "unsupported:" + kind, "seed": "c13k-%d-%d" % (vlib.seed(), rep), "args": compiles.config_args(rk), "capture": False})
     # every kind of multi-subgraph model (WHILE / IF / CALL_ONCE), including NPU-supported operators inside IF branches
     for rep in range(1 if tier == "quick" else 6):
-        for kind in sorted(set(netgen.MULTI_KINDS)) + ["if_npu"]:
+        for kind in sorted(set(netgen.MULTI_KINDS)):
             jobs.append({"family": "multi_subgraph:" + kind, "seed": "c13m-%d-%d" % (vlib.seed(), rep), "args": compiles.config_args(rk), "capture": False})
     # option-combination corners
     extra = [["--optimise", "Size", "--tensor-allocator", "Greedy", "--cpu-tensor-alignment", "256"],
